@@ -24,11 +24,12 @@ func init() {
 		Title: "The decoded packet does not depend on how the stream is fragmented",
 		Level: "model_checking",
 		Rule: "stateless exploration of the real ReadPacket under a scripted io.Reader: one choice point per Read call with the menu {deliver all asked, deliver k for every 1<=k<asked, (0,nil) (bounded per execution), deliver the final bytes together with io.EOF}; " +
+			"the stream is handed to ReadPacket through six reader implementations over that scripted source (itself; bufio.Reader with a 16- and a 4096-byte buffer and one that already holds data when handed over; a reader of its own type offering ReadByte/Peek/Discard/Buffered/WriteTo; io.LimitedReader) and, contiguously, through bytes.Buffer, bytes.Reader and strings.Reader; fixed periodic schedules with up to hundreds of idle (0,nil) reads in total (k idle reads before every chunk of 1, 7, 512, 4096, 65536 bytes, or 99/100/101 idle reads before each maximal chunk) are run on every frame; " +
 			"frames <= 10 bytes: the complete tree with up to 2 zero-length reads; longer frames: every execution with at most 2 non-default answers (3 for frames <= 48 bytes; thorough: 4 for frames <= 24 bytes, 3 for frames <= 100 bytes, two zero-length reads everywhere); four frames of 0.3-2.2 MB (CONNECT, CONNACK, SUBSCRIBE, PUBLISH) with 3 over a coarse menu of short counts {1, half, all but one}; frames of 4 090, 5 000 and 9 000 bytes with 1 (plus one 70 KiB frame in the thorough tier); every frame of the valid corpus V (~2.7k frames, one per field shape) with 1 (quick) / 2 (thorough). " +
 			"Every execution's result (accessor observation + String + re-encoding, or rejection) must equal the contiguous execution's. " +
 			"states = distinct (frame, reader position, answers so far) prefixes = choice points visited; transitions = Read answers executed; a trace is one complete delivery schedule, all run on the implementation; distinct_nontrivial = distinct schedules with at least one non-default answer.",
 		Assumptions: []string{
-			"readers obey the io.Reader contract; zero-length reads are bounded (2 per execution for short frames, 1 otherwise) because a reader returning (0,nil) forever need not be survived",
+			"readers obey the io.Reader contract; in the explored trees zero-length reads are bounded (2 per execution for short frames, 1 otherwise); the periodic schedules add executions with unboundedly many idle reads in total but at most 101 in a row (a reader returning (0,nil) forever need not be survived)",
 			"frame contents come from a corpus (minimal+rich frame per type, short forms, header-only frames, content-malformed frames); fragmentation handling is content independent in the code (header read byte-wise, body by length)",
 		},
 		Run:    runC07,
@@ -36,18 +37,21 @@ func init() {
 	})
 }
 
-func c07Exec(frame []byte, c *explore.Chooser, maxZero int, log bool) (string, *env.Reader) {
+func c07Exec(frame []byte, c *explore.Chooser, maxZero int, log bool, kind env.Kind, pat *env.Pattern) (string, *env.Reader) {
 	resetGlobals()
-	r := &env.Reader{Data: frame, C: c, MaxZero: maxZero, Log: log, Coarse: len(frame) > 100_000}
-	p, err, res := readPacket(r, stepBudget(len(frame)))
+	r := &env.Reader{Data: frame, C: c, MaxZero: maxZero, Log: log, Coarse: len(frame) > 100_000, Pat: pat}
+	p, err, res := readPacket(env.Wrap(kind, r), stepBudget(len(frame)))
 	return outcome(p, err, res), r
 }
 
-func c07Finding(name string, frame []byte, ref string, choices []int, maxZero int) *core.Finding {
+func c07Finding(name string, frame []byte, ref string, choices []int, maxZero int, rk env.Kind, pat *env.Pattern) *core.Finding {
 	var out string
 	var rd *env.Reader
 	explore.Replay(choices, func(c *explore.Chooser) bool {
-		out, rd = c07Exec(frame, c, maxZero, true)
+		if pat != nil {
+			c = nil
+		}
+		out, rd = c07Exec(frame, c, maxZero, true, rk, pat)
 		return true
 	})
 	if out == ref {
@@ -88,10 +92,18 @@ func c07Finding(name string, frame []byte, ref string, choices []int, maxZero in
 			}
 		}
 	}
+	desc := rd.Describe()
+	if len(desc) > 600 {
+		desc = desc[:300] + " ... " + desc[len(desc)-250:]
+	}
+	if pat != nil {
+		kind = fmt.Sprintf("pattern(chunk=%d,zero-reads-before-each=%d)", pat.Chunk, pat.ZeroBefore)
+		desc = kind + ": " + desc
+	}
 	return &core.Finding{
-		Class:  class + "/" + kind + "/" + hdr,
-		Sig:    map[string]string{"frame": name, "deviation": kind, "where": hdr},
-		Detail: fmt.Sprintf("frame %s (%s): schedule %s gives %q; contiguous delivery gives %q", name, abbrevHex(frame), rd.Describe(), clip(out, 200), clip(ref, 200)),
+		Class:  class + "/" + kind + "/" + hdr + "/" + rk.String(),
+		Sig:    map[string]string{"frame": name, "deviation": kind, "where": hdr, "reader": rk.String()},
+		Detail: fmt.Sprintf("frame %s (%s) through %s: schedule %s gives %q; contiguous delivery gives %q", name, abbrevHex(frame), rk, desc, clip(out, 200), clip(ref, 200)),
 	}
 }
 
@@ -136,6 +148,19 @@ func c07Frames(x *core.Ctx) []CFrame {
 	return fr
 }
 
+// c07Patterns: fixed periodic schedules with many idle reads in total (a
+// slow link): chunk size x zero-length reads before each chunk.
+func c07Patterns(n int) []env.Pattern {
+	ps := []env.Pattern{{Chunk: 1, ZeroBefore: 1}, {Chunk: 1, ZeroBefore: 3}, {Chunk: 7, ZeroBefore: 1}, {Chunk: 0, ZeroBefore: 99}, {Chunk: 0, ZeroBefore: 100}, {Chunk: 0, ZeroBefore: 101}}
+	if n > 4000 {
+		ps = append(ps, env.Pattern{Chunk: 512, ZeroBefore: 1}, env.Pattern{Chunk: 4096, ZeroBefore: 1}, env.Pattern{Chunk: 4096, ZeroBefore: 2}, env.Pattern{Chunk: 65536, ZeroBefore: 1})
+	}
+	if n > 100_000 {
+		ps = ps[3:] // byte-wise delivery of megabytes is left out
+	}
+	return ps
+}
+
 func runC07(x *core.Ctx) {
 	frames := c07Frames(x)
 	nCorpus := len(frames)
@@ -148,13 +173,39 @@ func runC07(x *core.Ctx) {
 			continue
 		}
 		f := f
-		ref, _ := c07Exec(f.B, nil, 0, false)
+		ref, _ := c07Exec(f.B, nil, 0, false, env.KRaw, nil)
+		// the readers that hold the whole stream: one (contiguous) execution each
+		for _, k := range env.AllKinds() {
+			if k.Scripted() && k != env.KBufioPrefetched {
+				continue
+			}
+			c07Single(x, f, ref, k, nil, "contiguous."+k.String())
+		}
+		// fixed periodic schedules with hundreds of idle reads in total
+		for _, pat := range c07Patterns(len(f.B)) {
+			pat := pat
+			kinds := []env.Kind{env.KRaw}
+			if len(f.B) <= 100_000 && pat.ZeroBefore <= 3 {
+				// (bufio itself gives up with io.ErrNoProgress after 100
+				// consecutive idle reads, so the long idle runs go to the raw
+				// reader only)
+				kinds = append(kinds, env.KBufio4096)
+			}
+			for _, k := range kinds {
+				c07Single(x, f, ref, k, &pat, "pattern")
+			}
+		}
 		if fi >= nCorpus {
 			bound := 1
 			if x.Thorough() {
 				bound = 2
 			}
-			c07Explore(x, f, ref, bound, 1, fmt.Sprintf("V.bounded%d", bound))
+			for _, k := range env.AllKinds() {
+				if !k.Scripted() || (!x.Thorough() && (k == env.KLimited || k == env.KBufio16)) {
+					continue
+				}
+				c07Explore(x, f, ref, bound, 1, fmt.Sprintf("V.bounded%d", bound), k)
+			}
 			continue
 		}
 		bound, maxZero, stratum := 2, 1, "bounded2"
@@ -174,14 +225,49 @@ func runC07(x *core.Ctx) {
 		case len(f.B) <= 48:
 			bound, maxZero, stratum = 3, 1, "bounded3<=48B"
 		}
-		c07Explore(x, f, ref, bound, maxZero, stratum)
+		for _, k := range env.AllKinds() {
+			if !k.Scripted() {
+				continue
+			}
+			b := bound
+			if k != env.KRaw && len(f.B) > 100_000 {
+				b = 2 // the wrapped readers over megabyte frames: one bound less
+			}
+			c07Explore(x, f, ref, b, maxZero, stratum, k)
+		}
 	}
 }
 
-func c07Explore(x *core.Ctx, f CFrame, ref string, bound, maxZero int, stratum string) {
+// c07Single runs one fixed (chooser-free) execution.
+func c07Single(x *core.Ctx, f CFrame, ref string, k env.Kind, pat *env.Pattern, stratum string) {
+	out, rd := c07Exec(f.B, nil, 0, false, k, pat)
+	x.Eval(stratum)
+	x.R.Traces++
+	x.R.States++
+	x.R.Transitions += int64(rd.Calls)
+	tag := k.String()
+	if pat != nil {
+		tag += fmt.Sprintf("/p%d.%d", pat.Chunk, pat.ZeroBefore)
+	}
+	x.Distinct(core.HashInts(f.Name+"/"+tag, nil))
+	if out != ref {
+		params := map[string]any{"max_zero": 0, "name": f.Name, "reader": int(k)}
+		if pat != nil {
+			params["chunk"], params["zero_before"] = pat.Chunk, pat.ZeroBefore
+		}
+		x.Report(c07Finding(f.Name, f.B, ref, nil, 0, k, pat), func() core.Case {
+			return core.Case{Harness: "c07", Frame: hexOf(f.B), Params: params}
+		}, func() *core.Finding { return c07Finding(f.Name, f.B, ref, nil, 0, k, pat) })
+	}
+}
+
+func c07Explore(x *core.Ctx, f CFrame, ref string, bound, maxZero int, stratum string, k env.Kind) {
 	e := &explore.Explorer{Bound: bound}
+	if k != env.KRaw {
+		stratum += "." + k.String()
+	}
 	e.Run = func(c *explore.Chooser) bool {
-		out, _ := c07Exec(f.B, c, maxZero, false)
+		out, _ := c07Exec(f.B, c, maxZero, false, k, nil)
 		x.Eval(stratum)
 		x.R.Traces++
 		x.R.Transitions += int64(c.Points())
@@ -193,13 +279,13 @@ func c07Explore(x *core.Ctx, f CFrame, ref string, bound, maxZero int, stratum s
 			}
 		}
 		if dev {
-			x.Distinct(core.HashInts(f.Name, taken))
+			x.Distinct(core.HashInts(f.Name+"/"+k.String(), taken))
 		}
 		if out != ref {
-			fd := c07Finding(f.Name, f.B, ref, taken, maxZero)
+			fd := c07Finding(f.Name, f.B, ref, taken, maxZero, k, nil)
 			x.Report(fd, func() core.Case {
-				return core.Case{Harness: "c07", Frame: hexOf(f.B), Choices: taken, Params: map[string]any{"max_zero": maxZero, "name": f.Name}}
-			}, func() *core.Finding { return c07Finding(f.Name, f.B, ref, taken, maxZero) })
+				return core.Case{Harness: "c07", Frame: hexOf(f.B), Choices: taken, Params: map[string]any{"max_zero": maxZero, "name": f.Name, "reader": int(k)}}
+			}, func() *core.Finding { return c07Finding(f.Name, f.B, ref, taken, maxZero, k, nil) })
 		}
 		return !x.Expired()
 	}
@@ -212,12 +298,16 @@ func c07Explore(x *core.Ctx, f CFrame, ref string, bound, maxZero int, stratum s
 		x.R.Exhaustive = false
 	}
 	x.Sample(stratum, 2, func() any {
-		return map[string]any{"frame": f.Name, "hex": abbrevHex(f.B), "schedules": e.Runs, "max_choice_points": e.MaxPoints, "contiguous_result": clip(ref, 120)}
+		return map[string]any{"frame": f.Name, "reader": k.String(), "hex": abbrevHex(f.B), "schedules": e.Runs, "max_choice_points": e.MaxPoints, "contiguous_result": clip(ref, 120)}
 	})
 }
 
 func replayC07(c core.Case) *core.Finding {
 	frame := unhex(c.Frame)
-	ref, _ := c07Exec(frame, nil, 0, false)
-	return c07Finding(paramStr(c.Params, "name"), frame, ref, c.Choices, paramInt(c.Params, "max_zero"))
+	ref, _ := c07Exec(frame, nil, 0, false, env.KRaw, nil)
+	var pat *env.Pattern
+	if _, ok := c.Params["chunk"]; ok {
+		pat = &env.Pattern{Chunk: paramInt(c.Params, "chunk"), ZeroBefore: paramInt(c.Params, "zero_before")}
+	}
+	return c07Finding(paramStr(c.Params, "name"), frame, ref, c.Choices, paramInt(c.Params, "max_zero"), env.Kind(paramInt(c.Params, "reader")), pat)
 }
